@@ -26,6 +26,8 @@ type Engine struct {
 	constGlob     map[string]bool
 	constErrCache map[*ssa.Global]bool
 	canonStructs  map[*types.Struct]types.Type
+	gmapByKey     map[string]*types.Named
+	gmaps         map[*types.Named]*types.Map
 	loadSecs      float64
 }
 
@@ -58,6 +60,31 @@ func (eng *Engine) funcID(f *ssa.Function) int {
 }
 
 func (eng *Engine) isConstGlobal(comp string) bool { return eng.constGlob[comp] }
+
+// ghost maps: total mathematical maps (SMT arrays) used as ghost state.
+func (eng *Engine) ghostMapType(k, v types.Type) types.Type {
+	key := shortType(k) + "=>" + shortType(v)
+	if t, ok := eng.gmapByKey[key]; ok {
+		return t
+	}
+	n := types.NewNamed(types.NewTypeName(0, nil, "gmap["+shortType(k)+"]"+shortType(v), nil), types.NewMap(k, v), nil)
+	if eng.gmapByKey == nil {
+		eng.gmapByKey = map[string]*types.Named{}
+		eng.gmaps = map[*types.Named]*types.Map{}
+	}
+	eng.gmapByKey[key] = n
+	eng.gmaps[n] = n.Underlying().(*types.Map)
+	return n
+}
+
+func (eng *Engine) isGhostMap(t types.Type) *types.Map {
+	if n, ok := t.(*types.Named); ok {
+		if m, ok := eng.gmaps[n]; ok {
+			return m
+		}
+	}
+	return nil
+}
 
 // constErrGlobal: a package-level variable of type error that is stored to only in the package
 // initialiser is a non-nil constant (checked syntactically over the SSA of its package).
